@@ -33,11 +33,33 @@ func (l *Local) VerifClearInhibit() {
 	l.cond.L.Unlock()
 }
 
-// VerifPending reports the queue lengths (allocating v4/v6, dangling v4/v6) under the ENI lock.
+// VerifPending reports, under the ENI lock and without modifying anything, how many requests that are
+// still alive (worker context not done) sit in the queues: allocating v4/v6 and dangling v4/v6.
 func (l *Local) VerifPending() (int, int, int, int) {
 	l.cond.L.Lock()
 	defer l.cond.L.Unlock()
-	return l.allocatingV4.Len(), l.allocatingV6.Len(), len(l.dangingV4), len(l.dangingV6)
+	live := func(a AllocatingRequests) int {
+		n := 0
+		for _, r := range a {
+			select {
+			case <-r.workerCtx.Done():
+			default:
+				n++
+			}
+		}
+		return n
+	}
+	return live(l.allocatingV4), live(l.allocatingV6), live(l.dangingV4), live(l.dangingV6)
+}
+
+// VerifENIID returns the id of the interface this slot currently manages ("" for an empty slot).
+func (l *Local) VerifENIID() string {
+	l.cond.L.Lock()
+	defer l.cond.L.Unlock()
+	if l.eni == nil {
+		return ""
+	}
+	return l.eni.ID
 }
 
 // VerifSyncPool runs one balancer round (production: every >= 2 min).
